@@ -41,58 +41,49 @@ func runC47(c *Ctx) {
 		storeState := f.CallOnField(state, "Store")
 		ss := f.Find(storeState)
 		c.Check(len(ss) == 1 && la.At(ss[0])[mu] == 2, "state-store-under-mutex", "the state is stored once, under the breaker's mutex", c.P.Pos(tr.Decl.Pos()), "")
-		// case Open: openUntil.Store before state.Store; found by clause
-		var openClause, resetClause *ast.CaseClause
-		ast.Inspect(tr.Decl.Body, func(n ast.Node) bool {
-			if cc, ok := n.(*ast.CaseClause); ok {
-				for _, e := range cc.List {
-					if k, ok := objOfConst(info, e); ok {
-						if k.Name() == "Open" {
-							openClause = cc
-						}
-						if k.Name() == "HalfOpen" || k.Name() == "Closed" {
-							resetClause = cc
-						}
-					}
+		// the transition's target is transitionTo's parameter; the current state is a value read from the state word
+		// inside the function (directly or through a single-definition local)
+		var targetObj types.Object
+		if ps := tr.Obj.Type().(*types.Signature).Params(); ps.Len() == 1 {
+			targetObj = ps.At(0)
+		}
+		if targetObj == nil {
+			c.Undecided("target-param", "transitionTo takes the target state as its parameter", c.P.Pos(tr.Decl.Pos()), "parameter not resolved")
+			return
+		}
+		isTarget := func(e ast.Expr) bool { return objOf(info, e) == targetObj }
+		loadsState := func(e ast.Expr) bool {
+			found := false
+			ast.Inspect(e, func(n ast.Node) bool {
+				if call, ok := n.(*ast.CallExpr); ok && f.CallOnField(state, "Load")(call) {
+					found = true
 				}
-			}
-			return true
-		})
-		okOpen, okReset, n2 := false, false, 0
-		if openClause != nil {
-			for _, st := range openClause.Body {
-				ast.Inspect(st, func(m ast.Node) bool {
-					if call, ok := m.(*ast.CallExpr); ok && f.CallOnField(openUntil, "Store")(call) {
-						okOpen = true
-					}
-					return true
-				})
-			}
+				return !found
+			})
+			return found
 		}
-		if resetClause != nil {
-			n2 = len(resetClause.List)
-			for _, st := range resetClause.Body {
-				ast.Inspect(st, func(m ast.Node) bool {
-					if call, ok := m.(*ast.CallExpr); ok {
-						if cal := callee(info, call); cal != nil && cal.Name() == "reset" {
-							okReset = true
-						}
-					}
-					return true
-				})
+		cur := func(e ast.Expr) bool {
+			e = ast.Unparen(e)
+			if id, ok := e.(*ast.Ident); ok {
+				if def := singleLocalDefIn(info, tr.Decl.Body, info.ObjectOf(id)); def != nil {
+					return loadsState(def)
+				}
+				return false
 			}
+			return loadsState(e)
 		}
-		w := f.MustPrecede(func(n ast.Node) bool { _, ok := n.(*ast.SwitchStmt); return ok }, nil, storeState)
-		_ = w
-		c.Check(okOpen, "open: deadline≺state", "a transition to Open stores the re-probe deadline (in the switch that precedes the state store)", c.P.Pos(tr.Decl.Pos()), "")
-		_, _ = okReset, n2
+		intoState := func(name string) map[Edge]bool {
+			return f.FactEdges(func(cm cmp) bool {
+				k, isK := objOfConst(info, cm.R)
+				return cm.Op == token.EQL && isK && k.Name() == name && isTarget(cm.L)
+			})
+		}
+		intoOpen := intoState("Open")
+		w := f.search(searchSpec{startEdges: edgeList(intoOpen), avoid: f.CallOnField(openUntil, "Store"), target: storeState})
+		c.Check(w == nil && len(intoOpen) > 0, "open: deadline≺state", "a transition to Open stores the re-probe deadline before the new state is published", c.P.Pos(tr.Decl.Pos()), f.describe(w))
 		for _, st := range []string{"HalfOpen", "Closed"} {
 			st := st
-			into := f.FactEdges(func(cm cmp) bool {
-				k, isK := objOfConst(info, cm.R)
-				o := objOf(info, cm.L)
-				return cm.Op == token.EQL && isK && k.Name() == st && o != nil && o.Name() == "target"
-			})
+			into := intoState(st)
 			reset := func(n ast.Node) bool {
 				call, ok := n.(*ast.CallExpr)
 				if !ok {
@@ -106,14 +97,9 @@ func runC47(c *Ctx) {
 		}
 		// check-then-act: the callers decide a transition outside the mutex, so transitionTo itself must validate
 		// the source state inside its critical section
-		cur := func(e ast.Expr) bool { o := objOf(info, e); return o != nil && o.Name() == "current" }
 		for _, pr := range []struct{ target, from string }{{"HalfOpen", "Open"}, {"Closed", "HalfOpen"}} {
 			pr := pr
-			into := f.FactEdges(func(cm cmp) bool {
-				k, isK := objOfConst(info, cm.R)
-				o := objOf(info, cm.L)
-				return cm.Op == token.EQL && isK && k.Name() == pr.target && o != nil && o.Name() == "target"
-			})
+			into := intoState(pr.target)
 			from := f.FactEdges(func(cm cmp) bool {
 				k, isK := objOfConst(info, cm.R)
 				return cm.Op == token.EQL && isK && k.Name() == pr.from && cur(cm.L)
@@ -121,11 +107,7 @@ func runC47(c *Ctx) {
 			w := f.search(searchSpec{startEdges: edgeList(into), avoidEdges: from, target: storeState})
 			c.Check(w == nil && len(into) > 0 && len(from) > 0, "source-validated/"+pr.target+"←"+pr.from, "a transition to "+pr.target+" is applied only when, inside the critical section, the current state is "+pr.from+" (the caller's decision was taken outside the lock and may be stale)", c.P.Pos(tr.Decl.Pos()), f.describe(w))
 		}
-		intoHalf := f.FactEdges(func(cm cmp) bool {
-			k, isK := objOfConst(info, cm.R)
-			o := objOf(info, cm.L)
-			return cm.Op == token.EQL && isK && k.Name() == "HalfOpen" && o != nil && o.Name() == "target"
-		})
+		intoHalf := intoState("HalfOpen")
 		dueInside := f.FactEdges(func(cm cmp) bool {
 			call, ok := ast.Unparen(cm.R).(*ast.CallExpr)
 			return cm.Op == token.GEQ && ok && f.CallOnField(openUntil, "Load")(call)
@@ -135,7 +117,7 @@ func runC47(c *Ctx) {
 		same := f.EdgesWhere(func(cond ast.Expr) (bool, bool) {
 			cm, ok := asCmp(cond, true)
 			if ok && cm.Op == token.EQL {
-				if o := objOf(info, cm.R); o != nil && o.Name() == "target" {
+				if (isTarget(cm.R) && cur(cm.L)) || (isTarget(cm.L) && cur(cm.R)) {
 					return true, true
 				}
 			}
